@@ -45,6 +45,19 @@ func (c *CLICase) jobs() []CLIJob {
 		j.Setup = func(dir string) { os.MkdirAll(filepath.Join(dir, "out.bin"), 0o755) }
 	case "srcunder":
 		j.Setup = func(dir string) { os.WriteFile(filepath.Join(dir, "plain"), []byte("x"), 0o644) }
+	case "same-file", "same-file-other-spelling":
+		// the output path names the source file itself: the image replaces the source
+		j.OutName = "in.nas"
+		j.Setup = func(dir string) { os.MkdirAll(filepath.Join(dir, "sub"), 0o755) }
+	case "out-symlink-to-source":
+		j.Setup = func(dir string) { os.Symlink("in.nas", filepath.Join(dir, "out.bin")) }
+	case "out-hardlink-to-source":
+		j.Setup = func(dir string) { os.Link(filepath.Join(dir, "in.nas"), filepath.Join(dir, "out.bin")) }
+	case "out-symlink-to-other":
+		j.Setup = func(dir string) {
+			os.WriteFile(filepath.Join(dir, "real.bin"), []byte("old contents, longer than the image"), 0o644)
+			os.Symlink("real.bin", filepath.Join(dir, "out.bin"))
+		}
 	}
 	return []CLIJob{j}
 }
@@ -230,6 +243,13 @@ func init() {
 			{"image-twice", append(append([]byte{}, goodImg...), goodImg...)}, {"image-minus-last-byte", goodImg[:len(goodImg)-1]}, {"one-byte-differs", flip}, {"empty-file", []byte{}}} {
 			add(&CLICase{What: "args", Src: good, Args: []string{"in.nas", "out.bin"}, Prefill: pf.pre, WantExit: 0, Ref: goodImg, Cell_: "argv2 destination-holds " + pf.name})
 		}
+		// source and output related through the file system
+		add(&CLICase{What: "args", Src: good, Setup: "same-file", Args: []string{"in.nas", "in.nas"}, WantExit: 0, Ref: goodImg, Cell_: "argv2 output-is-the-source"})
+		add(&CLICase{What: "args", Src: good, Setup: "same-file-other-spelling", Args: []string{"in.nas", "./sub/../in.nas"}, WantExit: 0, Ref: goodImg, Cell_: "argv2 output-is-the-source other-spelling"})
+		add(&CLICase{What: "args", Src: good, Setup: "out-symlink-to-source", Args: []string{"in.nas", "out.bin"}, WantExit: 0, Ref: goodImg, Cell_: "argv2 output-symlink-to-source"})
+		add(&CLICase{What: "args", Src: good, Setup: "out-hardlink-to-source", Args: []string{"in.nas", "out.bin"}, WantExit: 0, Ref: goodImg, Cell_: "argv2 output-hardlink-to-source"})
+		add(&CLICase{What: "args", Src: good, Setup: "out-symlink-to-other", Args: []string{"in.nas", "out.bin"}, WantExit: 0, Ref: goodImg, Cell_: "argv2 output-symlink-to-file"})
+		add(&CLICase{What: "args", Src: good, Args: []string{"./in.nas", "./out.bin"}, WantExit: 0, Ref: goodImg, Cell_: "argv2 dot-slash-paths"})
 		add(&CLICase{What: "args", Src: good, Args: []string{"-d", "in.nas", "out.bin"}, WantExit: 0, Ref: goodImg, Cell_: "argv3 -d"})
 		add(&CLICase{What: "args", Args: []string{"-d"}, WantExit: 16, Cell_: "argv1 -d"})
 		add(&CLICase{What: "args", Src: good, Args: []string{"-d", "in.nas"}, WantExit: 16, Cell_: "argv2 -d source-only"})
